@@ -6,12 +6,23 @@ Space  : all ordered pairs of operand shapes (7 base dimensions, 6 derived,
          (equal, nearly equal and tiny values included) x operand forms {scalar, array, array with a zero element}
          x the operations == != < <= > >= + - * / and, per operand, unary -,
          abs, ** {2, 0, 0.5, -1}, in_units to every shape.
-Oracle : the same operation on (SI magnitude, exponent vector) pairs.
+         Third wave: the magnitude alphabet also holds nan and +inf (thorough:
+         and -inf) everywhere it is used; and a LATTICE of fractional-exponent
+         dimensions m^a s^b (a, b in quarter/half steps, see
+         domains/w3_c11.py; 30 dimensions in quick, 55 in thorough): all ordered
+         pairs of lattice dimensions (first operand made from unit text, second
+         by arithmetic on the base units) x magnitudes {1.5, 3}^2 x forms
+         {scalar, array}^2 x the ten binary operations, and per lattice
+         dimension (both construction routes) unary -, abs, the four powers
+         and in_units to every lattice dimension.
+Oracle : the same operation on (SI magnitude, exponent vector) pairs; IEEE
+         semantics for nan/inf (a result that must be nan is nan).
 """
 import itertools
 import operator
 
 from ..runner import Result
+from ..domains import w3_c11 as W3
 
 LEVEL = 'exploration'
 SHAPES = ['m', 'kg', 's', 'A', 'K', 'mol', 'cd', 'N', 'J', 'Pa', 'J/mol',
@@ -26,35 +37,67 @@ EXPS = {'m': (1, 0, 0, 0, 0, 0, 0), 'kg': (0, 1, 0, 0, 0, 0, 0),
         '1/K': (0, 0, 0, 0, -1, 0, 0), 'm^0.5': (0.5, 0, 0, 0, 0, 0, 0)}
 NULL = (0, 0, 0, 0, 0, 0, 0)
 MAGS = [-2.0, 0.0, 1.5, 3.0, 3.0 * (1 + 1e-12), 1e-20]
+# third wave: non-finite magnitudes, appended everywhere MAGS is used
+MAGS_TIER = {t: MAGS + W3.NONFINITE[t] for t in ('quick', 'thorough')}
 FORMS = ['scalar', 'array', 'array0']
+# third wave: lattice of fractional-exponent dimensions (name -> exponents,
+# name -> factors for the arithmetic construction route); quick is a subset
+# of thorough, so the thorough tables serve replay of either tier
+LATTICE = {t: [n for n, _, _ in W3.lattice(t)] for t in ('quick', 'thorough')}
+LAT_EXPS = dict((n, e) for n, e, _ in W3.lattice('thorough'))
+LAT_FACTORS = dict((n, f) for n, _, f in W3.lattice('thorough'))
+assert set(LATTICE['quick']) <= set(LATTICE['thorough'])
 BINOPS = [('==', operator.eq), ('!=', operator.ne), ('<', operator.lt),
           ('<=', operator.le), ('>', operator.gt), ('>=', operator.ge),
           ('+', operator.add), ('-', operator.sub), ('*', operator.mul),
           ('/', operator.truediv)]
 POWS = [2, 0, 0.5, -1]
-BOUND = {t: '%d shapes^2 x %d magnitudes^2 x %d forms^2 x %d binary operations; '
-            'unary -, abs, 4 powers and conversion to every shape per operand'
-            % (len(SHAPES), len(MAGS), len(FORMS), len(BINOPS))
+BOUND = {t: '%d shapes^2 x %d magnitudes^2 (incl. %s) x %d forms^2 x %d binary '
+            'operations; unary -, abs, 4 powers and conversion to every shape '
+            'per operand; lattice of %d fractional-exponent dimensions m^a s^b: '
+            'all ordered pairs (unit text vs base-unit arithmetic) x %d '
+            'magnitudes^2 x %d forms^2 x %d binary operations, and per lattice '
+            'dimension x 2 construction routes x %d magnitudes x %d forms: '
+            'unary -, abs, 4 powers, conversion to every lattice dimension'
+            % (len(SHAPES), len(MAGS_TIER[t]),
+               ', '.join(repr(x) for x in W3.NONFINITE[t]), len(FORMS),
+               len(BINOPS), len(LATTICE[t]), len(W3.LATTICE_MAGS),
+               len(W3.LATTICE_FORMS), len(BINOPS), len(MAGS_TIER[t]), len(FORMS))
          for t in ('quick', 'thorough')}
 RULE = ('full product of the stated operand alphabets; a case is non-trivial '
         'when the two operands have different dimensions, or one is a plain '
-        'number, or the magnitudes are equal / zero / negative (the shortcuts '
-        'visible in the guards); cases the statement leaves open (a zero-VALUED '
+        'number, or the magnitudes are equal / zero / negative / non-finite '
+        '(the shortcuts visible in the guards); every lattice case is '
+        'non-trivial (two different fractional dimensions must be refused, '
+        'one dimension built by two routes must be accepted); cases the statement leaves open (a zero-VALUED '
         'quantity of another dimension, division by zero, exponentiation by a '
         'quantity, fractional power of a negative value) are counted, not '
         'judged')
 ASSUMPTIONS = ['numpy broadcasting semantics for array operands',
+               'IEEE-754 semantics of Python floats / numpy for nan and inf '
+               'define "the same operation on the SI magnitudes"; two nan '
+               'results count as agreeing',
+               'lattice exponents are multiples of 1/8, exact in binary '
+               'floating point, so equality of dimensions is exact for them',
                'the internal SI representation (value, exponent vector) is '
                'read through .value/.units.exps (._units for arrays)']
 MANIFEST = dict(
     technique='exhaustive product of operand shapes x magnitudes x forms x '
               'operations vs arithmetic on (SI magnitude, exponent vector)',
-    text='All ordered pairs over 16 operand shapes x 4 magnitudes x 3 forms '
+    text='All ordered pairs over 16 operand shapes x 8 magnitudes (equal, '
+         'nearly equal, tiny, zero, negative, nan, inf) x 3 forms '
          'under the ten binary operators (so both operand orders and the '
          'reflected methods are exercised), plus unary operations, powers and '
          'conversions, are compared with a reference that works on (SI '
-         'magnitude, exponent vector) pairs.',
-    note='Magnitudes come from a 4-value alphabet; numpy scalars as plain '
+         'magnitude, exponent vector) pairs. A lattice of 30 fractional-'
+         'exponent dimensions m^a s^b (55 in thorough) is enumerated in all '
+         'ordered pairs, one operand built from unit text and the other by '
+         'arithmetic on base units, under the same operators, powers and '
+         'conversions.',
+    note='Magnitudes come from an 8-value alphabet (9 in thorough); lattice '
+         'pairs use two finite magnitudes and no array with a zero element; '
+         'chains of inexactly cancelling powers are run on the 14 named '
+         'shapes only, not on the lattice; numpy scalars as plain '
          'operands and arrays of rank > 1 are not covered.',
     ref='5/C11')
 
@@ -67,8 +110,14 @@ class WantUnitsError(Exception):
     pass
 
 
-def make(shape, mag, form):
-    """-> (implementation operand, reference operand)"""
+def exps_of(shape):
+    return EXPS[shape] if shape in EXPS else LAT_EXPS[shape]
+
+
+def make(shape, mag, form, route='text'):
+    """-> (implementation operand, reference operand)
+    route 'text': the unit comes from eval_qty(shape); route 'arith' (lattice
+    shapes only): from powers and products of the base units."""
     import numpy as np
     from pgradd.Units import eval_qty
     if shape == '#zero':
@@ -76,7 +125,13 @@ def make(shape, mag, form):
     if shape == '#number':
         v = mag if mag != 0.0 else 4.5
         return v, (v, None)
-    u = eval_qty(shape)
+    if route == 'arith':
+        u = None
+        for base, e in LAT_FACTORS[shape]:
+            f = eval_qty(base) ** e
+            u = f if u is None else u * f
+    else:
+        u = eval_qty(shape)
     if form == 'scalar':
         m = mag
     elif form == 'array':
@@ -86,7 +141,7 @@ def make(shape, mag, form):
     else:
         m = np.array([0.0, mag])
     q = u * m
-    return q, (m, EXPS[shape])
+    return q, (m, exps_of(shape))
 
 
 def allzero(m):
@@ -151,24 +206,37 @@ def same(got, want):
             if w.shape == () and g.shape != ():
                 return bool(np.all(g == w))
             return g.shape == w.shape and bool(np.all(g == w))
-        return g.shape == w.shape and bool(np.allclose(g, w, rtol=1e-12, atol=0))
+        # equal_nan: with nan/inf magnitudes the SI-magnitude arithmetic
+        # itself gives nan (inf-inf, inf*0, nan+x); finite results are
+        # compared exactly as before
+        return g.shape == w.shape and bool(np.allclose(g, w, rtol=1e-12, atol=0,
+                                                       equal_nan=True))
     except Exception:    # noqa
         return False
 
 
-def run_pair(R, sa, sb, only=None):
+def run_pair(R, sa, sb, only=None, tier='thorough', lat=False):
+    """lat=False: the named shapes, full magnitude alphabet of the tier.
+    lat=True: sa, sb are lattice dimensions; sa is built from its unit text,
+    sb by arithmetic on the base units; magnitudes/forms of the lattice."""
     from pgradd.Error import UnitsError
     import numpy as np
-    for ma, mb in itertools.product(MAGS, MAGS):
-        for fa, fb in itertools.product(FORMS, FORMS):
+    mags = W3.LATTICE_MAGS if lat else MAGS_TIER[tier]
+    forms = W3.LATTICE_FORMS if lat else FORMS
+    pre = 'lat' if lat else 'bin'
+    for ma, mb in itertools.product(mags, mags):
+        for fa, fb in itertools.product(forms, forms):
             if sa.startswith('#') and (fa != 'scalar' or (sa == '#zero' and ma != 0.0)):
                 continue
             if sb.startswith('#') and (fb != 'scalar' or (sb == '#zero' and mb != 0.0)):
                 continue
             qa, ra = make(sa, ma, fa)
-            qb, rb = make(sb, mb, fb)
+            qb, rb = make(sb, mb, fb, route='arith' if lat else 'text')
             for name, fn in BINOPS:
-                case = dict(kind='bin', a=[sa, ma, fa], b=[sb, mb, fb], op=name)
+                case = dict(kind='bin', a=[sa, W3.wmag(ma), fa],
+                            b=[sb, W3.wmag(mb), fb], op=name)
+                if lat:
+                    case['fam'] = 'lat'
                 if only is not None and only != case:
                     continue
                 R.evals += 1
@@ -180,7 +248,8 @@ def run_pair(R, sa, sb, only=None):
                     continue
                 except WantUnitsError:
                     want = ('UnitsError',)
-                if sa != sb or ma == mb or ma <= 0 or mb <= 0:
+                if lat or sa != sb or ma == mb or ma <= 0 or mb <= 0 or \
+                        not (W3.finite(ma) and W3.finite(mb)):
                     R.nontrivial += 1
                 try:
                     with np.errstate(all='ignore'):
@@ -191,24 +260,32 @@ def run_pair(R, sa, sb, only=None):
                     got = ('EXC:' + type(e).__name__,)
                 ok = (got[0] == want[0] and
                       (got[0] != 'val' or same(got[1:], want[1:])))
-                R.outcomes['%s:%s' % (name, 'ok' if ok else 'bad')] += 1
+                R.outcomes['%s%s:%s' % ('lat:' if lat else '', name,
+                                        'ok' if ok else 'bad')] += 1
                 if not ok:
                     cls = ('same-dim' if ra[1] == rb[1] else
                            'plain' if ra[1] is None or rb[1] is None else 'cross-dim')
-                    R.violation('bin:%s:%s:%s->%s' % (name, cls, want[0], got[0]),
-                                '(%s %s %s) %s (%s %s %s): expected %r, got %r' % (
-                                    ma, sa, fa, name, mb, sb, fb, want, got), case)
+                    R.violation('%s:%s:%s:%s->%s' % (pre, name, cls, want[0], got[0]),
+                                '(%s %s %s) %s (%s %s %s%s): expected %r, got %r' % (
+                                    ma, sa, fa, name, mb, sb, fb,
+                                    ', unit built by arithmetic' if lat else '',
+                                    want, got), case)
     R.sample(dict(a='1.5 ' + sa, op='<', b='3.0 ' + sb), limit=2)
 
 
-def run_unary(R, shape, only=None):
+def run_unary(R, shape, only=None, tier='thorough', lat=False):
+    """lat=True: shape is a lattice dimension; it is built by both routes,
+    converted to every lattice dimension of the tier; no power chains."""
     import numpy as np
     from pgradd.Error import UnitsError
     if shape.startswith('#'):
         return
-    for mag in MAGS:
-        for form in FORMS:
-            q, (m, e) = make(shape, mag, form)
+    targets = LATTICE[tier] if lat else SHAPES
+    pre = 'lat:' if lat else ''
+    routes = ('text', 'arith') if lat else ('text',)
+    for mag in MAGS_TIER[tier]:
+        for form, route in itertools.product(FORMS, routes):
+            q, (m, e) = make(shape, mag, form, route)
             cases = [('neg', lambda: -q, (-m, e)), ('abs', lambda: abs(q), (abs(m), e))]
             for p in POWS:
                 if (p == 0.5 and np.any(np.asarray(m) < 0)) or \
@@ -221,7 +298,9 @@ def run_unary(R, shape, only=None):
                               (np.asarray(m, dtype=float) ** p if form != 'scalar'
                                else float(m) ** p, ee if any(ee) else None)))
             for name, f, want in cases:
-                case = dict(kind='un', a=[shape, mag, form], op=name)
+                case = dict(kind='un', a=[shape, W3.wmag(mag), form], op=name)
+                if lat:
+                    case.update(fam='lat', route=route)
                 if only is not None and only != case:
                     continue
                 R.evals += 1
@@ -232,13 +311,14 @@ def run_unary(R, shape, only=None):
                 except Exception as ex:     # noqa
                     got = ('EXC:' + type(ex).__name__,)
                 ok = got[0] == 'val' and same(got[1:], want)
-                R.outcomes['%s:%s' % (name, 'ok' if ok else 'bad')] += 1
+                R.outcomes['%s%s:%s' % (pre, name, 'ok' if ok else 'bad')] += 1
                 if not ok:
-                    R.violation('un:%s:%s' % (name, got[0]),
+                    R.violation('%sun:%s:%s' % (pre, name, got[0]),
                                 '%s(%s %s %s): expected %r, got %r' % (
                                     name, mag, shape, form, want, got), case)
             # exponents that cancel only up to floating-point residue
-            if form == 'scalar' and mag > 0:
+            # (finite magnitudes, the named shapes: inf/inf is nan)
+            if form == 'scalar' and mag > 0 and W3.finite(mag) and not lat:
                 for a_, b_, c_ in ((0.1, 0.2, 0.3), (0.7, 0.2, 0.9), (1.0 / 3, 1.0 / 3, 2.0 / 3),
                                    (0.1, 0.7, 0.8)):
                     case = dict(kind='un', a=[shape, mag, form], op='chain%s' % ((a_, b_, c_),))
@@ -262,10 +342,12 @@ def run_unary(R, shape, only=None):
                                     '(q**%r)*(q**%r)/(q**%r) and (q**a)**(1/a)+q for q=%s %s: %r'
                                     % (a_, b_, c_, mag, shape, got), case)
             # conversion to every shape
-            for target in SHAPES:
+            for target in targets:
                 if target.startswith('#'):
                     continue
-                case = dict(kind='conv', a=[shape, mag, form], to=target)
+                case = dict(kind='conv', a=[shape, W3.wmag(mag), form], to=target)
+                if lat:
+                    case.update(fam='lat', route=route)
                 if only is not None and only != case:
                     continue
                 R.evals += 1
@@ -278,15 +360,15 @@ def run_unary(R, shape, only=None):
                     got = ('UnitsError',)
                 except Exception as ex:   # noqa
                     got = ('EXC:' + type(ex).__name__,)
-                if EXPS[target] == e:
+                if exps_of(target) == e:
                     ok = got[0] == 'val' and same(got[1:], (m, None))
                     want = ('val', m, None)
                 else:
                     ok = got[0] == 'UnitsError'
                     want = ('UnitsError',)
-                R.outcomes['in_units:%s' % ('ok' if ok else 'bad')] += 1
+                R.outcomes['%sin_units:%s' % (pre, 'ok' if ok else 'bad')] += 1
                 if not ok:
-                    R.violation('conv:%s->%s' % (want[0], got[0]),
+                    R.violation('%sconv:%s->%s' % (pre, want[0], got[0]),
                                 '(%s %s %s).in_units(%s): expected %r, got %r' % (
                                     mag, shape, form, target, want, got), case)
 
@@ -298,23 +380,37 @@ def shards(tier, seed):
             out.append(('pair', sa, sb))
     for s in SHAPES:
         out.append(('unary', s))
+    # third wave: one shard per first lattice dimension (x every second one),
+    # one per lattice dimension for the unary operations and conversions
+    for s in LATTICE[tier]:
+        out.append(('latpair', s))
+    for s in LATTICE[tier]:
+        out.append(('latunary', s))
     return out
 
 
 def run_shard(shard, tier):
     R = Result()
     if shard[0] == 'pair':
-        run_pair(R, shard[1], shard[2])
+        run_pair(R, shard[1], shard[2], tier=tier)
+    elif shard[0] == 'unary':
+        run_unary(R, shard[1], tier=tier)
+    elif shard[0] == 'latpair':
+        for sb in LATTICE[tier]:
+            run_pair(R, shard[1], sb, tier=tier, lat=True)
     else:
-        run_unary(R, shard[1])
+        run_unary(R, shard[1], tier=tier, lat=True)
     return R
 
 
 def replay(w):
+    # a witness is one case; it is searched in the thorough space, of which
+    # the quick space is a subset (same case dictionaries)
     R = Result()
+    lat = w.get('fam') == 'lat'
     if w['kind'] == 'bin':
-        run_pair(R, w['a'][0], w['b'][0], only=w)
+        run_pair(R, w['a'][0], w['b'][0], only=w, lat=lat)
     else:
-        run_unary(R, w['a'][0], only=w)
+        run_unary(R, w['a'][0], only=w, lat=lat)
     return dict(violates=bool(R.violations),
                 detail='\n'.join(v['msg'] for v in R.violations) or 'holds')
